@@ -14,7 +14,13 @@ for sid in ids:
         continue
     m = json.load(open(mp))
     P = m["property"]
-    subprocess.run(["git", "-C", "/repo", "apply", os.path.join(d, "patch.diff")], check=True)
+    ap = subprocess.run(["git", "-C", "/repo", "apply", os.path.join(d, "patch.diff")], capture_output=True, text=True)
+    if ap.returncode != 0:
+        m["patch_applies_to_current_repo"] = False
+        json.dump(m, open(mp, "w"), indent=1)
+        print(sid, "patch no longer applies (the code it changed was repaired since); kept with its recorded result", flush=True)
+        continue
+    m["patch_applies_to_current_repo"] = True
     try:
         r = subprocess.run(["./check", P, "--tier", "quick"], cwd="/verif", capture_output=True, text=True)
     finally:
